@@ -67,7 +67,7 @@ def record(case, scratch, stats, fail_at=None):
                 # what the history completed up to and including this request reports
                 M.LOG_ON[0] = False
                 try:
-                    facts.append((len(M.LOG), final_facts(sut.t)))
+                    facts.append((len(M.LOG), final_facts(sut.t), op["op"]))
                 finally:
                     M.LOG_ON[0] = True
         if fail_at is None:
@@ -112,6 +112,28 @@ def final_facts(t):
     return {"pages": pages, "out": outw, "in": inw}
 
 
+def _union_pages(a, b):
+    pages = dict(a["pages"])
+    for l, c in b["pages"].items():
+        pages[l] = pages.get(l, False) or c
+    return pages
+
+
+def _union_w(a, b):
+    out = dict(a)
+    for k2, v in b.items():
+        out[k2] = max(out.get(k2, 0), v)
+    return out
+
+
+def _cap(w, final):
+    return {k2: min(v, final.get(k2, 0)) for k2, v in w.items() if final.get(k2, 0) > 0}
+
+
+def _cap_pages(pages, final):
+    return {l: (c and final[l]) for l, c in pages.items() if l in final}
+
+
 def allowed_facts(facts, pos):
     """Union of what the history reports before and after the request that log
     event number `pos` belongs to (pages; per-direction link weights)."""
@@ -120,6 +142,15 @@ def allowed_facts(facts, pos):
         i += 1
     before = facts[i][1]
     after = facts[min(i + 1, len(facts) - 1)][1]
+    # pages and links only ever grow except through clear / overwrite: when no such request follows the
+    # interrupted one, the cut must also stay within what the WHOLE completed history reports
+    later_wipes = any(len(f) > 2 and f[2] in ("clear", "overwrite_open") for f in facts[i + 2:])
+    if not later_wipes:
+        final = facts[-1][1]
+        fpages = final["pages"]
+        return {"pages": {l: c for l, c in _union_pages(before, after).items() if l in fpages} if False else _cap_pages(_union_pages(before, after), fpages),
+                "out": _cap(_union_w(before["out"], after["out"]), final["out"]),
+                "in": _cap(_union_w(before["in"], after["in"]), final["in"]), "capped_by_final": True}
     pages = dict(before["pages"])
     for l, c in after["pages"].items():
         pages[l] = pages.get(l, False) or c
